@@ -1,0 +1,10 @@
+//go:build verif
+
+package funcs
+
+// VerifBaseTable and VerifExperimentalTable expose the process-wide function
+// tables to a verification harness (read-only use: fingerprinting). Only present
+// in builds with the "verif" tag.
+func VerifBaseTable() FunctionTable { return baseTable }
+
+func VerifExperimentalTable() FunctionTable { return experimentalTable }
